@@ -220,7 +220,11 @@ func buildTown(r *Run, opts TownOpts) *Town {
 			p.Parent = tn.Posts[t.Draw(len(tn.Posts))]
 			p.Parent.Replies = append(p.Parent.Replies, p)
 		}
-		for k := t.Weighted(3, 2, 1, 1); k > 0; k-- {
+		nLinks := t.Weighted(3, 2, 1, 1)
+		if t.Chance(1, 7) {
+			nLinks = 8 + t.Draw(6) // a link-heavy post: two-digit link numbers
+		}
+		for k := nLinks; k > 0; k-- {
 			if t.Chance(1, 3) && len(tn.Posts) > 0 {
 				p.BodyLinks = append(p.BodyLinks, tn.Posts[t.Draw(len(tn.Posts))].ID)
 			} else if t.Chance(1, 3) {
